@@ -23,8 +23,11 @@ TRAFFIC_110 = "traffic-110 2 R:32:64:0 R:0:0:0 P=FE110,a,MS,FS,a"
 # C06_example_held_acks: a 1.0.1-only reader sends two KEEPALIVEs and its rejection of the query while it does
 # not read; the second acknowledgement is WRITTEN after the client settled on 1.0.1
 HELD_ACKS = "held-acks 2 E:110 R:0:0:0 D1:2 LA"
+SLOW_MS = 600                   # client timeout in the sessions with answers delayed by a fraction of it
 QUIET_MS = 240                  # client timeout in the sessions where a negotiation message is left unanswered on a live link
 # C06_example_late_answer: a 1.1 reader keeps the link alive with KEEPALIVEs and answers the query only after the client's timeout
+# both answers in time (0.6 T each) but together slower than T; the reader has to be switched
+SLOW_ANSWERS = "slow-answers 2 L60:32:64:0 L60:0:0:0 T%d" % SLOW_MS
 LATE_ANSWER = "late-answer 2 L:64:64:0 R:0:0:0 T%d" % QUIET_MS
 
 
@@ -254,6 +257,27 @@ def sessions(tier):
         for b in s_replies:
             for o in ([], ["LA"], ["K1", "K2"]) + (([tq],) if thorough else ()):
                 add(2, a, b, o)
+    # grid 11 — reply latency below the client's timeout must not matter: on a client WithTimeout(T) the query and the
+    # switch are answered 0 / 0.3 T / 0.6 T / 0.8 T after they arrived, independently (sums above T included), the link kept
+    # alive meanwhile; + one answer later than T for each message.  Time is not part of the model: outcome and wire must be
+    # those of the undelayed session.  The reader measures the latency actually achieved (l<ms>): a session in which an
+    # answer meant to be in time was delivered later than 0.92 T is re-run and otherwise left out.
+    tl = "T%d" % SLOW_MS
+    lat = [0, 30, 60, 80]
+    slow = lambda r, pct: r if pct == 0 else "L%d%s" % (pct, r[1:])
+    for a in (["R:32:64:0", "R:64:32:0", "R:0:32:0", "R:96:64:0"] + (resp_ok if thorough else [])):
+        for b in ["R:0:0:0", "R:0:0:%d" % VER_UNSUPPORTED] + (["E:100", "W:12"] if thorough else []):
+            for p1 in lat:
+                for p2 in lat:
+                    if p1 or p2:
+                        add(2, slow(a, p1), slow(b, p2), [tl])
+            add(2, slow(a, 130), b, [tl])
+            add(2, a, slow(b, 130), [tl])
+            add(2, slow(a, 60), slow(b, 130), [tl])
+    for p1 in lat[1:]:
+        add(2, slow("R:64:64:0", p1), "R:0:0:0", [tl])          # no switch needed
+        add(2, slow("R:32:64:0", p1), slow("R:0:0:0", 60), [tl, "LA"])
+        add(1, slow("R:32:64:0", p1), slow("R:0:0:0", 60), [tl])
     # grid 4 — version bytes whose low five bits are not zero (the decoder must ignore them)
     if thorough:
         extra = [(cb, mb) for cb in range(256) for mb in range(256) if (cb & 31) or (mb & 31)]
@@ -261,7 +285,7 @@ def sessions(tier):
         extra = [((c << 5) | 31, (m << 5) | (1 + (c * 8 + m) % 31)) for c in range(8) for m in range(8)]
     for cb, mb in extra:
         add(2, "R:%d:%d:0" % (cb, mb), "R:0:0:0")
-    return [WITNESS, DOWNGRADE_KA, GREETING_11, EARLY_NOWAIT, TRAFFIC_110, HELD_ACKS, LATE_ANSWER] + main, over, sweep_desc
+    return [WITNESS, DOWNGRADE_KA, GREETING_11, EARLY_NOWAIT, TRAFFIC_110, HELD_ACKS, LATE_ANSWER, SLOW_ANSWERS] + main, over, sweep_desc
 
 
 EARLY_TYPE = {"EN": 64, "ES": 3}   # SendNoWait(ENABLE_EVENTS_AND_REPORTS) / SendMessage(SET_READER_CONFIG)
@@ -325,8 +349,9 @@ def quiet(r1, r2):
 def model_request(line, prestamp, override, go=None, strict=False):
     f = line.split()
     # for the model a reply of another type is a reply of another type, whatever status it carries
-    g = lambda r: "G" if r.startswith("G") else ":".join(eff(r).split(":")[:2]) if eff(r).startswith("W:") else eff(r)
     opts = f[4:]
+    g = lambda r: "G" if r.startswith("G") else ":".join(eff(r).split(":")[:2]) if eff(r).startswith("W:") else norm_delay(eff(r), has_timeout(opts))
+
     tr = traffic_of(opts)
     if tr is not None:
         later = traffic_tokens(tr)
@@ -366,6 +391,37 @@ def frames(s):
 
 def kind(r):
     return r.split(":")[0][0]
+
+
+def delay_pct(r):
+    """L<pct>:… — the answer goes out pct % of the client's timeout after the message arrived (L:… = 150)"""
+    head = r.split(":")[0]
+    return int(head[1:]) if len(head) > 1 else 150
+
+
+def norm_delay(r, to):
+    """a delayed answer as the client must experience it — time is not part of the model: below the client's
+    timeout (or for a client without one) it is the answer R:…, above it it is L:… (too late)"""
+    if kind(r) != "L":
+        return r
+    rest = r[r.index(":"):]
+    return "R" + rest if (not to or delay_pct(r) < 100) else "L" + rest
+
+
+def timed_out_by_accident(line, ob):
+    """a delayed answer meant to arrive within the client's timeout that (machine busy) was delivered too close to
+    it or after it: the session says nothing, it is re-run and otherwise left out"""
+    f = line.split()
+    opts = f[4:]
+    t = [int(o[1:]) for o in opts if o[:1] == "T" and o[1:].isdigit()]
+    if not t or t[-1] == 0 or ob is None:
+        return False
+    want = [r for r in (f[2], f[3]) if kind(r) == "L" and delay_pct(r) < 100]
+    if not want:
+        return False
+    if ob["outcome"] == "proceeds" and not ob["lat"] and len(want) > 0 and False:
+        return True
+    return any(ms > 0.92 * t[-1] for ms in ob["lat"])
 
 
 def unanswered(r, to):
@@ -533,7 +589,8 @@ def project_go(line, r1):
     if len(f) < 10:
         return None
     ob = dict(sid=f[0], outcome=f[1], cver=int(f[2]), before=frames(f[3]), after=frames(f[4]), aux=f[5:9], cver_end=int(f[9]), raw=line,
-              held=int(f[10][1:]) if len(f) > 10 and f[10][:1] == "h" and f[10][1:].isdigit() else 0)
+              held=int(f[10][1:]) if len(f) > 10 and f[10][:1] == "h" and f[10][1:].isdigit() else 0,
+              lat=[int(x) for x in f[11][1:].split(",") if x.isdigit()] if len(f) > 11 and f[11][:1] == "l" else [])
     return ob
 
 
@@ -554,7 +611,8 @@ def same(ob, mo, r1):
 def observe(line, g):
     """(cmax, effective r1, effective r2, opts, observation) of one answered session"""
     f = line.split()
-    return int(f[1]), eff(f[2]), eff(f[3]), f[4:], project_go(g, f[2])
+    to = has_timeout(f[4:])
+    return int(f[1]), norm_delay(eff(f[2]), to), norm_delay(eff(f[3]), to), f[4:], project_go(g, f[2])
 
 
 def run(tier, seed, replay=None):
@@ -627,7 +685,7 @@ def run(tier, seed, replay=None):
     for i, (line, g) in enumerate(cases):
         cmax, r1, r2, opts, ob = observe(line, g)
         mo = project_model(o_conf1[i]) if i < len(o_conf1) else None
-        if ob is None or mo is None or judge(cmax, r1, r2, ob, opts) or not same(ob, mo, r1):
+        if ob is None or mo is None or judge(cmax, r1, r2, ob, opts) or not same(ob, mo, r1) or timed_out_by_accident(line, ob):
             if not (r1 == "O" and cmax == 2):
                 suspicious.append(i)
     reruns = 0
@@ -653,6 +711,7 @@ def run(tier, seed, replay=None):
     dist, nontriv, samples, sampled, differ = {}, set(), [], set(), []
     n_today = n_conf = n_neither = 0
     n_lenient = n_strict = 0
+    timing_skipped = []
     spv_payloads = {}
     for (line, g), mt, mc, ms in zip(cases, o_today, o_conf, o_strict):
         cmax, r1, r2, opts, ob = observe(line, g)
@@ -668,6 +727,9 @@ def run(tier, seed, replay=None):
                             "[T<ms> client timeout] [K1|K2: KEEPALIVE while the query|switch is unanswered] [LA: after negotiation ack first] "
                             "[D1:<n>|D2:<n>: the reader sends n KEEPALIVEs and then its answer to the query|switch WITHOUT reading, and reads again only when the client has acted on the answer] [P=<steps>: traffic script after negotiation: a = keep-alive, <M|F|N><S|X<st>|E<st>|W|N> = request via SendMessage|SendFor|SendNoWait answered with success | status in response | status in ERROR_MESSAGE | wrong type | nothing] [V<g><n><l>: header versions the reader uses for greeting / during / after negotiation] [EN|ES 0|1|2: early SendNoWait|SendMessage before Connect | during query | during switch]; "
                             "observed: <outcome> <Client.version> <frames before outcome> <frames after> (version:type:payload) … h<KEEPALIVEs sent unread with the last negotiation answer>")
+        if timed_out_by_accident(line, ob):
+            timing_skipped.append(line)
+            continue
         if ob is None or mo_t is None or mo_c is None:
             res.violation("harness-answer", "unreadable answer for %s: go=%r model=%r" % (line, g, mt), replay_d, False)
             continue
@@ -700,6 +762,7 @@ def run(tier, seed, replay=None):
                 ("switch-refused", plain and cmax == 2 and len(ob["before"]) == 2 and r2.startswith("R:") and ob["outcome"] == "fails"),
                 ("query-unsupported", plain and cmax == 2 and r1 == "E:%d" % VER_UNSUPPORTED),
                 ("query-error-109", cmax == 2 and r1 == "E:109"),
+                ("both-answers-in-time-but-together-slower-than-the-timeout", f[0] == "slow-answers"),
                 ("query-answered-by-error-message-with-success", plain and cmax == 2 and r1 == "E:0" and r2 == "R:0:0:0"),
                 ("switch-answered-by-error-message-with-success", plain and cmax == 2 and r1 == "R:32:64:0" and r2 == "E:0"),
                 ("switch-answered-by-another-type-with-success", plain and cmax == 2 and r1 == "R:32:64:0" and r2 == "W:12:0"),
@@ -743,7 +806,7 @@ def run(tier, seed, replay=None):
     res.notes.append("ERROR_MESSAGE/Success answering the query is read by Go: %s" % reading)
     res.coverage.update(
         evaluations=n, distinct_nontrivial=len(nontriv),
-        rule="the union of ten completely enumerated grids. (1) reactions: client max {1.0.1, 1.1} x reaction to GET_SUPPORTED_VERSION "
+        rule="the union of eleven completely enumerated grids. (1) reactions: client max {1.0.1, 1.1} x reaction to GET_SUPPORTED_VERSION "
              "(response with current,max in 0..7 and status in {0,110,100}; ERROR_MESSAGE with those statuses; wrong types; oversize; three undecodable "
              "payloads; silence) x reaction to SET_PROTOCOL_VERSION (same kinds). (2) status codes (%s), one session each in the four places a status "
              "can stand: ERROR_MESSAGE to the query, status of the query's response, status of the switch's response, ERROR_MESSAGE to the switch. "
@@ -767,12 +830,15 @@ def run(tier, seed, replay=None):
              "(10) which replies let Connect succeed: {expected response, ERROR_MESSAGE, another type (three types, with and without an LLRPStatus)} x status {0, 110, 101, 100, 109, 401} "
              "for the query (x three readers' version bytes; x {switch accepted, answered by ERROR_MESSAGE/Success, by another type/Success}) and for the switch (x four readers that need it), "
              "x {plain, ack first, keep-alives at both points}. "
+             "(11) reply latency: client with a 600 ms timeout, the query and the switch answered 0 / 0.3 / 0.6 / 0.8 timeouts after they arrived, independently (sums above the timeout "
+             "included), and 1.3 timeouts for each message, x four readers that need the switch x {accepted, refused}; outcome and frames must be those of the undelayed session. "
              "'Before the end of negotiation' = read by the reader before it sent its last negotiation answer. Each session = Connect on net.Pipe, then two SendMessage requests and one or two KEEPALIVEs "
              "in the stated order, every frame's version bits recorded; non-trivial iff client max is 1.1 (negotiation takes place); distinct by "
              "(client max, reaction 1, reaction 2, keep-alive points, order)" % sweep_desc,
         samples=samples, input_distribution=dist, traces_validated_against_impl=n, exhaustive=not replay,
         trusted_base=res.assumptions, model_configuration_matched=which, tree_probe=probe,
         errmsg_success_answering_query_read=reading,
+        delayed_answer_sessions_left_out_because_delivered_too_late=timing_skipped,
         sessions_matching_cfg_today=n_today, sessions_matching_conforming=n_conf, sessions_matching_neither=n_neither,
         oversize_first_reply_crashes=crashed, sessions_rerun_for_confirmation=reruns,
         observation_set_protocol_version_payloads=spv_payloads)
